@@ -847,6 +847,8 @@ def run_case(desc: dict, monitors=(), gsc_cap=30000, run=True) -> Ctx:
                                 ctx.step += 1
                                 ctx.in_step = True
                                 ctx.step_start_idx = len(ctx.log)
+                                if desc.get("hand_bump"):
+                                    tree.metaepoch_count += 1  # the other by-hand idiom (the project's own test_gsc.py advances the counter itself)
                                 ctx.emit("step_begin", tree)
                                 tree.run_metaepoch()
                                 with activate(None):
